@@ -339,7 +339,23 @@ func c09OneStep(r *Run, m *ServerModel) {
 				r.check(strings.HasSuffix(mode, ".mode"), "r3", "doWalk clone literal mode", cl.Pos(), "mode = "+mode, "clone literal's mode is "+mode+", not the cloned reference's mode")
 				return true
 			}
-			r.check(mode == "attr.Mode.FileType()", "r3", "doWalk step literal mode", cl.Pos(), "mode = attr.Mode.FileType() (attributes of the file just walked)", "step literal's mode is "+mode+": the directory test of the next step would not speak about the walked file")
+			// the attributes of the file just walked: the Attr-typed result of the walkOne call
+			attrN := ""
+			ast.Inspect(dw.Decl.Body, func(n2 ast.Node) bool {
+				as, ok := n2.(*ast.AssignStmt)
+				if !ok || len(as.Rhs) != 1 {
+					return true
+				}
+				if c, ok := unparen(as.Rhs[0]).(*ast.CallExpr); ok && calleeKey(info, c) == "p9.walkOne" {
+					for _, l := range as.Lhs {
+						if t := info.TypeOf(l); t != nil && strings.HasSuffix(types.TypeString(t, nil), "p9.Attr") {
+							attrN = res.str(l)
+						}
+					}
+				}
+				return true
+			})
+			r.check(attrN != "" && mode == attrN+".Mode.FileType()", "r3", "doWalk step literal mode", cl.Pos(), "mode = attr.Mode.FileType() (attributes of the file just walked)", "step literal's mode is "+mode+": the directory test of the next step would not speak about the walked file")
 			return true
 		})
 		// getattr is forced true for steps.
@@ -407,7 +423,9 @@ func c09Attach(r *Run, m *ServerModel) {
 		for _, el := range cl.Elts {
 			if kv, ok := el.(*ast.KeyValueExpr); ok && kv.Key.(*ast.Ident).Name == "mode" {
 				mode := res.str(kv.Value)
-				r.check(mode == "attr.Mode.FileType()", "r4", "tattach root mode", cl.Pos(), "root mode = attr.Mode.FileType()", "root mode is "+mode)
+				// the attribute variable: third result of the GetAttr on the attached file
+				attrName := m.resultName(fi, 2, isCallTo(info, "p9.File.GetAttr"))
+				r.check(attrName != "" && mode == attrName+".Mode.FileType()", "r4", "tattach root mode", cl.Pos(), "root mode = the file type GetAttr reported", "root mode is "+mode+", not the file type of the attributes GetAttr returned")
 			}
 		}
 		return true
